@@ -481,7 +481,9 @@ class TransactionManager(Elaboratable):
         self.transactions = DependencyContext.get().get_dependency(TransactionsKey())
         self.methods = DependencyContext.get().get_dependency(DefinedMethodsKey())
 
-        for elem in chain(self.transactions, self.methods):
+        # relations can also be declared on methods defined using `provide`; they apply to the providing body
+        provided_methods = DependencyContext.get().get_dependency(ProvidedMethodsKey())
+        for elem in chain(self.transactions, self.methods, provided_methods):
             for relation in elem.relations:
                 elem._body.relations.append(RelationBase(**{**dataclass_asdict(relation), "end": relation.end._body}))
             for elem2 in elem.simultaneous_list:
